@@ -443,7 +443,8 @@ def run_shard(spec):
                 g.runtime = False
                 e = g.expr(BOOL, r.randint(1, 4))
                 g.runtime = was
-                if is_const(e) and const_eval(e) is False and not spec_problem(e, 'tid') and g.exact(e):      # (inexact: the twin may loop for ever - fold-nowrap - and no model run could triage that)
+                if is_const(e) and const_eval(e) is False and not spec_problem(e, 'tid') and g.exact(e) and \
+                        (g.safe or not any(isinstance(x, Var) for x in A.walk_expr(e))):      # (inexact, also through a const variable whose initialiser is: the twin may loop for ever - fold-nowrap - and no model run could triage that)
                     items.append((e, 'loop'))
                     continue
             e = g.expr(t, r.randint(1, 5))
